@@ -109,6 +109,9 @@ def run_solver(des, wt, sc, cons, first=None):
     except RecursionError:
         terminated = False
         err = "RecursionError"
+    except Exception as ex:             # a solve() that raises did not deliver a solution: data for C05_Terminates, not a crash
+        terminated = False
+        err = type(ex).__name__
     pos = [v.position() for v in vs]
     uns = [1 if c.unsatisfiable else 0 for c in cs]
     act = [1 if c.active else 0 for c in cs]
@@ -193,6 +196,9 @@ def traced_solve(des, wt, sc, cons, first=None):
             solver.solve()
     except Budget:
         return None
+    except (RecursionError, Exception):
+        # a solve that raises is judged by the verdict records (C05_Terminates); the micro-step layer just leaves it out
+        return "raised"
     finally:
         vpsc.Block.split = o_split
         vpsc.Block.splitBetween = o_sb
@@ -505,6 +511,9 @@ def main():
                 continue
             if mode == "steps":
                 ev = traced_solve(des, wt, sc, cons, first)
+                if ev == "raised":
+                    discarded += 1
+                    continue
                 if ev is None:
                     json.dump({"records": [], "discarded": 0, "skipped": "solver internals not wrappable"}, sys.stdout)
                     return
